@@ -36,14 +36,26 @@ def run(tier, replay):
     with vlib.Scratch(PID) as wd:
         states = trans = 0
         mb = 5 if tier == "quick" else 6
-        for pre, cap, r, flt in [("PreLine", 9, 3, True), ("PrePartial", 1, 3, False), ("PreNone", 1, 3, True)]:
-            # the ring-window deviation is inherent: with KF_DropForgotten the DropNoticed obligation is waived
-            res = vlib.tlc(wd, "MC_Tail", "G.cfg", files={"G.cfg": cfg(pre, mb, cap, r, flt, True)}, timeout=3300)
+        for pre, cap, r, flt in [("PreLine", 9, 3, True), ("PrePartial", 1, 3, False), ("PreNone", 1, 3, True), ("PreNone", 1, 2, True)]:
+            # while the ring-window deviation is an open finding the DropNoticed obligation is waived (KF_DropForgotten = TRUE)
+            res = vlib.tlc(wd, "MC_Tail", "G.cfg", files={"G.cfg": cfg(pre, mb, cap, r, flt, kf)}, timeout=3300)
             if not res.ok:
                 raise vlib.Inconclusive("TLC Tail %s: %s %s" % (pre, res.violated, (res.error or "")[-1000:]))
             states += res.distinct
             trans += res.generated
             log("TLC Tail Pre=%s Cap=%d Filter=%s MaxBytes=%d: %d distinct states; ExactlyOnceInOrder, NumbersRight hold" % (pre, cap, flt, mb, res.distinct))
+        if not kf:
+            # the repaired statistics in the scope where the old ones fail (ring of 2, nine bytes): DropNoticed must hold
+            res9 = vlib.tlc(wd, "MC_Tail", "G.cfg", files={"G.cfg": cfg("PreNone", 9 if tier == "quick" else 10, 1, 2, True, False)}, timeout=3300)
+            if not res9.ok:
+                raise vlib.Inconclusive("TLC Tail ring=2: %s %s" % (res9.violated, (res9.error or "")[-1000:]))
+            states += res9.distinct
+            trans += res9.generated
+            log("TLC Tail ring of 2, 9 bytes: %d distinct states; DropNoticed holds with the remembered drop" % res9.distinct)
+            # non-vacuity: the model of the old code (no memory of the drop) must violate DropNoticed with a ring of 2
+            resk = vlib.tlc(wd, "MC_Tail", "G.cfg", files={"G.cfg": cfg("PreNone", 9, 1, 2, True, True, inv="NoBadPerc")}, timeout=900)
+            if resk.violated != "NoBadPerc":
+                raise vlib.Inconclusive("the model of the unrepaired statistics does not show the forgotten drop (%s)" % resk.violated)
         cases = []
         nsim = 60 if tier == "quick" else 500
         for pre, cap, flt in [("PreLine", 100, True), ("PrePartial", 1, False), ("PreNone", 2, True), ("PreLine", 1, True), ("PrePartial", 100, False)]:
@@ -86,7 +98,10 @@ def run(tier, replay):
             if res.get("bad"):
                 V.violation(res["bad"][0][:300], desc)
             elif res.get("forgotten"):
-                V.known("KF_DropForgotten", desc)
+                if kf:
+                    V.known("KF_DropForgotten", desc)
+                else:
+                    V.violation("a line was dropped, more than 100 lines later the next delivered line reports 100%", desc)
         cov = {"states": states, "transitions": trans, "traces_validated_against_impl": len(cases),
                "evaluations": delivered, "distinct_nontrivial": sum(1 for c in cases if c["cap"] < 100 or c["pre"] or c["bulk"]),
                "rule": "cases = distinct behaviours (open / write(chunk) / take) of Tail.tla from TLC -simulate for 5 combinations of pre-existing "
